@@ -165,6 +165,31 @@ func genStore() {
 	m.strs("isReferencedCases", refCases, "type-switch cases of Graph.IsReferenced")
 	m.strs("isReferencedBodies", refBodies, "statements of each case of Graph.IsReferenced")
 
+	// ---- the functions the footprint model (NGF.Model.Footprint) mirrors
+	sv := src("internal/mode/static/state/graph/service.go")
+	brs := sv.fn("", "buildReferencedServices")
+	var loops []string
+	walk(brs.Body, func(n ast.Node) bool {
+		if rs, ok := n.(*ast.RangeStmt); ok {
+			t := sv.text(rs.X)
+			if t == "l7routes" || t == "l4Routes" {
+				loops = append(loops, t+": "+strings.Join(sv.stmts(rs.Body), " ; "))
+			}
+		}
+		if as, ok := n.(*ast.AssignStmt); ok && len(as.Lhs) == 1 && sv.text(as.Lhs[0]) == "belongsToWinningGw" {
+			if fl, ok := as.Rhs[0].(*ast.FuncLit); ok {
+				m.strs("belongsToWinningGwBody", sv.stmts(fl.Body), "belongsToWinningGw closure of buildReferencedServices")
+			}
+		}
+		return true
+	})
+	m.strs("referencedServicesLoops", loops, "the two route loops of buildReferencedServices")
+	nsf := src("internal/mode/static/state/graph/namespace.go")
+	m.strs("buildReferencedNamespacesBody", nsf.stmts(nsf.fn("", "buildReferencedNamespaces").Body), "buildReferencedNamespaces")
+	m.strs("isNamespaceReferencedBody", nsf.stmts(nsf.fn("", "isNamespaceReferenced").Body), "isNamespaceReferenced")
+	btf := src("internal/mode/static/state/graph/backend_tls_policy.go")
+	m.strs("validateBackendTLSCACertRefBody", btf.stmts(btf.fn("", "validateBackendTLSCACertRef").Body), "validateBackendTLSCACertRef")
+
 	// ---- handler: the dispatch on changeType
 	hd := src("internal/mode/static/handler.go")
 	heb := hd.fn("eventHandlerImpl", "HandleEventBatch")
